@@ -393,6 +393,19 @@ void libxmp_load_epilogue(struct context_data *ctx)
 		clamp_volume_envelope(m, &mod->xxi[i].aei);
 	}
 
+	/* libxmp_load_sample checks the loop points when it loads the data; a
+	 * loader that sets them afterwards (DBM with INST after SMPL) bypasses
+	 * that, and the mixer indexes the sample data with them. Never leave a
+	 * loop flagged that lies outside the data of a loaded sample. */
+	for (i = 0; i < mod->smp; i++) {
+		struct xmp_sample *xxs = &mod->xxs[i];
+		if (xxs->data != NULL && (xxs->flg & XMP_SAMPLE_LOOP) &&
+		    (xxs->lps < 0 || xxs->lpe > xxs->len || xxs->lps >= xxs->lpe)) {
+			xxs->lps = xxs->lpe = 0;
+			xxs->flg &= ~(XMP_SAMPLE_LOOP | XMP_SAMPLE_LOOP_BIDIR);
+		}
+	}
+
 #ifndef LIBXMP_CORE_DISABLE_IT
 	/* TODO: there's no unintrusive and clean way to get this struct into
 	 * libxmp_load_sample currently, so bound these fields here for now. */
